@@ -78,17 +78,35 @@ theorem unsync_blocks_change (mode : Mode) (path : Path) (a alpha beta : Option 
       have := (hc.2 c (by rw [hl]; simp)).2
       exact hne (diff_nil_of_sameTree path _ _ this)
 
+/-- **A conflict is reported instead**: at a disagreement, if endpoint `S`
+holds unsynchronizable residue, `S` is not touched and the disagreement is
+answered by exactly one of — a conflict rooted at that path, a change of the
+*other* endpoint at that path, or (one-way-safe only) no action at all (the
+content stays where it is, untracked). -/
+theorem unsync_blocks_with_conflict_at_disagreement (mode : Mode) (path : Path)
+    (a alpha beta : Option Entry) :
+    (diff path (osync beta) beta ≠ [] →
+      (handleDisagreement mode path a alpha beta).beta = [] ∧
+      ((handleDisagreement mode path a alpha beta).conflicts.map (·.root) = [path] ∨
+       (handleDisagreement mode path a alpha beta).alpha.map (·.path) = [path] ∨
+       (mode = .oneWaySafe ∧ (handleDisagreement mode path a alpha beta).actionPaths = []))) ∧
+    (diff path (osync alpha) alpha ≠ [] →
+      (handleDisagreement mode path a alpha beta).alpha = [] ∧
+      ((handleDisagreement mode path a alpha beta).conflicts.map (·.root) = [path] ∨
+       (handleDisagreement mode path a alpha beta).beta.map (·.path) = [path] ∨
+       (mode = .oneWaySafe ∧ (handleDisagreement mode path a alpha beta).actionPaths = []))) :=
+  residue_blocks mode path a alpha beta
+
 /-! Non-vacuity: a valid tree with untracked and problematic content, and a
 plan with a change (see `C01`): the hypotheses are satisfiable and the
 quantification is not empty. -/
 example : Valid (some exampleTree1) ∧ oallSync (some exampleTree1) = false := by
   unfold Valid; decide
 
--- TODO theorem unsync_blocks_with_conflict (DESIGN §8 C03): where a side holds unsynchronizable residue
---   at a disagreeing path, `Reconcile` reports a conflict rooted there unless the other endpoint is the one
---   being changed (or one-way-safe leaves beta's content untracked). `unsync_blocks_change` proves the
---   "no change on that side" half at the handler; the "conflict instead" half is checked on the
---   implementation by the C03 oracle `unsync-not-blocking`.
+-- TODO theorem unsync_blocks_with_conflict (DESIGN §8 C03), lifted to `Reconcile`: for every path at
+--   which the recursion reaches a disagreement … (the statement above is at the disagreement handler, the only
+--   place where actions are planned; `C06.conflict_rooted_at_disagreement` gives the converse direction for
+--   conflicts). The lifted form is checked on the implementation by the C03 oracle `unsync-not-blocking`.
 -- TODO theorem remove_preserves_unknown: the on-disk half (transition.go) belongs to C08/C09 (model M6).
 
 end Mutagen.Properties.C03
